@@ -3,4 +3,5 @@ NEXT Next
 CONSTANT MaxAdaptors = 1
 INVARIANT Emit
 INVARIANT FiniteNeverDiverges
+INVARIANT ProvAligned
 CHECK_DEADLOCK FALSE
